@@ -9,7 +9,7 @@ RULE = ('registry layer: effective tables (keys in order, method identities) and
         'dotted names, on scalar/sequence/mapping nodes, as keys, under aliases and merge keys, a third of them after the same document was loaded by FullLoader/CFullLoader in the same interpreter (history probe for state shared between loader classes); result must be a YAML error or plain data; non-core tags must be rejected. '
         'non-trivial = document has at least one explicit tag or is non-empty; distinct by (loader, text)')
 
-NAMES = ['os.system', 'os.path', 'subprocess.Popen', 'builtins.eval', 'eval', 'sys.exit', 'json.dumps', 'collections.OrderedDict', 'yaml.Loader', 'nonexistent.mod', 'xml.dom', 'int', 'object', 'datetime.datetime', '', 'os', 'a.b.c']
+NAMES = ['tools.c04names.ticker', 'tools.c04names.letters', 'tools.c04names.counter', 'tools.c04names.mapped', 'tools.c04names.generator', 'tools.c04names.lazy', 'os.system', 'os.path', 'subprocess.Popen', 'builtins.eval', 'eval', 'sys.exit', 'json.dumps', 'collections.OrderedDict', 'yaml.Loader', 'nonexistent.mod', 'xml.dom', 'int', 'object', 'datetime.datetime', '', 'os', 'a.b.c']
 def tag_vocabulary(ctx):
     tags = set()
     import yaml
